@@ -589,6 +589,43 @@ func (e *Enc) processBlock(b *ssa.BasicBlock) {
 
 // loopCtx builds the evaluation context for loop clauses: source-level names
 // resolve to SSA values; header phis take the given override.
+// blockCtx: source-level names resolve to the SSA values whose definition dominates block at.
+func (e *Enc) blockCtx(at *ssa.BasicBlock, st *State, extra map[string]CVal) *Ctx {
+	c := e.ctx(st, e.init, extra)
+	c.local = func(name string) (CVal, bool) {
+		var best ssa.Value
+		for _, v := range e.debugVals[name] {
+			if a, ok := v.(*ssa.Alloc); ok {
+				if r, ok := e.vals[a]; ok && r.Loc != nil {
+					if _, live := st.locals[a]; live {
+						return CVal{T: e.read(r.Loc, st), GT: a.Type().(*types.Pointer).Elem()}, true
+					}
+				}
+				continue
+			}
+			if r, ok := e.vals[v]; !ok || r.Loc != nil {
+				continue
+			}
+			if ins, ok := v.(ssa.Instruction); ok {
+				if !(ins.Block() == at || ins.Block().Dominates(at)) {
+					continue
+				}
+				if best != nil {
+					if bi, ok := best.(ssa.Instruction); ok && domDepth(ins.Block()) <= domDepth(bi.Block()) {
+						continue
+					}
+				}
+			}
+			best = v
+		}
+		if best != nil {
+			return CVal{T: e.vals[best].T, GT: best.Type()}, true
+		}
+		return CVal{}, false
+	}
+	return c
+}
+
 func (e *Enc) loopCtx(li *loopInfo, st *State, over map[*ssa.Phi]Term, extra map[string]CVal) *Ctx {
 	c := e.ctx(st, e.init, extra)
 	c.local = func(name string) (CVal, bool) {
@@ -855,7 +892,7 @@ func (e *Enc) applyHavoc(ws *writeSet, st *State) {
 		if _, ok := st.locals[a]; ok {
 			et := a.Type().(*types.Pointer).Elem()
 			st.locals[a] = e.havoc("loc_"+a.Comment, e.reg.sortOf(et))
-			e.emit("(assert %s)", e.reg.rangeFact(et, st.locals[a]).S) // a Go value of its type
+			e.emit("(assert %s)", tAnd(e.reg.rangeFact(et, st.locals[a]), e.refsBelow(et, st.locals[a], st.alloc.S)).S) // a Go value of its type; its references are allocated
 		}
 	}
 }
